@@ -13,7 +13,7 @@
 from __future__ import annotations
 
 import ast
-from typing import Dict,  Any, List, Optional, Set
+from typing import Any, Dict, List, Optional, Set
 
 from engine.effects import borrowed_names, mutations
 from engine.fold import Folder
@@ -238,6 +238,52 @@ def run(ctx: Any, prog: Program) -> None:
     loc_calls = [c for c in walk_no_nested(co) if isinstance(c, ast.Call) and isinstance(c.func, ast.Attribute) and c.func.attr == 'localise']
     ok = len(loc_calls) >= 2 and all([dotted(a) for a in c.args] == ['origin', 'orient'] for c in loc_calls)
     ctx.check('C17.N3', ok, ins, loc_calls[0] if loc_calls else co, 'every copied brush must be localised with (origin, orient)', text='brushes localised')
+    # a copied brush moved by anything but localise(): the other mover must shift everything localise() shifts by the origin.
+    def _moved_by(fn: ast.AST, param: str) -> Set[str]:
+        """attributes of self whose update in `fn` depends on `param` (directly, through elements of a loop over them, or a call on them)"""
+        out: Set[str] = set()
+        loopvar: Dict[str, str] = {}
+        for n in ast.walk(fn):
+            if isinstance(n, ast.For) and isinstance(n.target, ast.Name) and isinstance(n.iter, ast.Attribute) and dotted(n.iter.value) == 'self':
+                loopvar[n.target.id] = n.iter.attr
+        def base_attr(e: ast.AST) -> Optional[str]:
+            while isinstance(e, (ast.Attribute, ast.Subscript)):
+                if isinstance(e, ast.Attribute) and dotted(e.value) == 'self':
+                    return e.attr
+                e = e.value
+            if isinstance(e, ast.Name) and e.id in loopvar:
+                return loopvar[e.id]
+            return None
+        def uses(e: Optional[ast.AST]) -> bool:
+            return e is not None and any(isinstance(x, ast.Name) and x.id == param for x in ast.walk(e))
+        for n in ast.walk(fn):
+            if isinstance(n, ast.Assign) and uses(n.value):
+                for t in n.targets:
+                    b = base_attr(t)
+                    if b:
+                        out.add(b)
+            elif isinstance(n, ast.AugAssign) and uses(n.value):
+                b = base_attr(n.target)
+                if b:
+                    out.add(b)
+            elif isinstance(n, ast.Expr) and isinstance(n.value, ast.Call) and isinstance(n.value.func, ast.Attribute) and any(uses(a) for a in n.value.args):
+                b = base_attr(n.value.func.value)
+                if b:
+                    out.add(b)
+        return out
+    side_loc = vm.func('Side.localise')
+    need = _moved_by(side_loc, side_loc.args.args[1].arg)
+    ctx.shape('C17.N3', {'planes', 'uaxis', 'vaxis', 'disp_pos'} <= need, vm, side_loc, f'Side.localise shifts planes, both texture axes and the displacement start position by the origin (found {sorted(need)})', text='Side.localise shifted fields')
+    brush_vars = {t.id for n in ast.walk(co) if isinstance(n, ast.Assign) and isinstance(n.value, ast.Call) and isinstance(n.value.func, ast.Attribute) and n.value.func.attr == 'copy' for t in n.targets if isinstance(t, ast.Name)}
+    brush_vars |= {e.id for n in ast.walk(co) if isinstance(n, ast.For) and 'solids' in ast.unparse(n.iter) for e in ast.walk(n.target) if isinstance(e, ast.Name)}
+    for c in walk_no_nested(co):
+        if isinstance(c, ast.Call) and isinstance(c.func, ast.Attribute) and isinstance(c.func.value, ast.Name) and c.func.value.id in brush_vars and c.func.attr not in ('localise', 'copy', 'add', 'append') \
+                and vm.has_func('Solid.' + c.func.attr) and vm.has_func('Side.' + c.func.attr) and any(dotted(a) == 'origin' for a in c.args):
+            other = vm.func('Side.' + c.func.attr)
+            got = _moved_by(other, other.args.args[1].arg)
+            missing = sorted(need - got)
+            ctx.check('C17.N3', not missing, ins, c, f'collapse_one moves a copied brush with {c.func.attr}() instead of localise(): Side.{c.func.attr} shifts {sorted(got)} but not {missing}, which Side.localise moves by the '
+                      'origin - a displacement keeps the template\'s start position while its face moves', text=f'brush moved by {c.func.attr}(): same fields as localise')
     # Vec.localise: rotate (mat._vec_rot(self)) then translate (self += origin)
     vl = mt.func('VecBase.localise') if mt.has_func('VecBase.localise') else mt.func('Vec.localise')
     rot_line = add_line = None
@@ -314,6 +360,24 @@ def run(ctx: Any, prog: Program) -> None:
     so = vm.func('Solid.localise')
     ok = any(isinstance(c, ast.Call) and isinstance(c.func, ast.Attribute) and c.func.attr == 'localise' and [dotted(a) for a in c.args] == ['origin', 'angles'] for c in walk_no_nested(so))
     ctx.check('C17.N3', ok, vm, so, 'Solid.localise must localise every side with the same origin and orientation', text='Solid.localise')
+    # ---- N4 (order): $variables are expanded first, the naming style is decided on the expanded text ----------------------------
+    # fixup_name exempts '@' / '!' / empty names; a target written as `$target` only shows which of these it is after substitution.
+    n_sub = 0
+    for c in ast.walk(co):
+        if isinstance(c, ast.Call) and isinstance(c.func, ast.Attribute) and c.func.attr == 'substitute':
+            n_sub += 1
+            inner = [x for a in c.args for x in ast.walk(a) if isinstance(x, ast.Call) and isinstance(x.func, ast.Attribute) and x.func.attr in ('fixup_name', 'fixup_key')]
+            ctx.check('C17.N4', not inner, ins, c, f'`{ast.unparse(c)[:90]}` expands $variables in a name that already went through {inner[0].func.attr if inner else "fixup_name"}(): whether the name is global (@), '
+                      'special (!) or empty is then decided on the literal `$var` text, so `$target` = `@door` becomes `inst-@door`', func='collapse_one', text='substitute before the naming style')
+    for a in ast.walk(co):
+        if isinstance(a, ast.Assign) and any(isinstance(t, ast.Attribute) and t.attr == 'target' for t in a.targets):
+            v = a.value
+            outer_is_name = isinstance(v, ast.Call) and isinstance(v.func, ast.Attribute) and v.func.attr == 'fixup_name'
+            has_sub = any(isinstance(x, ast.Call) and isinstance(x.func, ast.Attribute) and x.func.attr == 'substitute' for x in ast.walk(v))
+            if has_sub or outer_is_name:
+                ctx.check('C17.N4', outer_is_name and has_sub, ins, a, f'output targets must be `fixup_name(substitute(target))`; found `{ast.unparse(v)[:80]}`', func='collapse_one', text='output target: substitute, then style')
+    if n_sub < 2:
+        raise AnalysisError(f'collapse_one: only {n_sub} substitute() calls found (keyvalues and output targets confirmed by hand)')
     # ---- N4 --------------------------------------------------------------------------------------------
     fn = ins.func('Instance.fixup_name')
     tbl = Folder(prog, ins).enum_table('FixupStyle')
@@ -395,6 +459,8 @@ def n6_substitute(ctx: Any, vm: Any) -> None:
 
 
 MUTANTS = [
+    {'id': 'unrotated_brushes_translated', 'file': 'instancing.py', 'find': "        inst.brush_ids[old_brush.id] = new_brush.id\n        new_brush.localise(origin, orient)\n", 'replace': "        inst.brush_ids[old_brush.id] = new_brush.id\n        if orient == Matrix():\n            new_brush.translate(origin)\n        else:\n            new_brush.localise(origin, orient)\n", 'expect': 'C17.N3'},
+    {'id': 'output_target_styled_before_substitution', 'file': 'instancing.py', 'find': "            out.target = inst.fixup_name(inst.fixup.substitute(out.target, ''))", 'replace': "            out.target = inst.fixup.substitute(inst.fixup_name(out.target), '')", 'expect': 'C17.N4'},
     {'id': 'uv_offset_only_for_positive_scale', 'file': 'vmf.py', 'find': "        offset = self.offset - vec.dot(origin) / self.scale\n", 'replace': "        offset = self.offset\n        if self.scale > 0:\n            offset = self.offset - vec.dot(origin) / self.scale\n", 'expect': 'C17.N3'},
     {'id': 'uv_offset_guard_zero_scale', 'file': 'vmf.py', 'find': "        offset = self.offset - vec.dot(origin) / self.scale\n", 'replace': "        if self.scale != 0:\n            offset = self.offset - vec.dot(origin) / self.scale\n        else:\n            offset = self.offset\n", 'expect': None},
     {'id': 'collapse_all_stops_without_nested', 'file': 'instancing.py', 'find': "            collapse_one(vmf, inst, file, engine_cache=fgd_cache)\n", 'replace': "            collapse_one(vmf, inst, file, engine_cache=fgd_cache)\n        if len(file_cache) > 64:\n            return\n", 'expect': 'C17.N2'},
